@@ -31,6 +31,7 @@ type SpecEnv struct {
 	depth int
 	cur   *State // inside old(): the state in which program locals are read
 	prev  *State // loop body relations: the state at the loop head of the current iteration
+	inPrev bool  // evaluating inside prev(): loop-carried locals take their value at the loop head
 }
 
 func (vc *VC) specEnvFor(fx *FuncCtx, st *State, fr *Frame) *SpecEnv {
@@ -267,7 +268,14 @@ func (e *SpecEnv) evalIdent(name string) (*SV, error) {
 	if e.fx != nil && e.fx.locals != nil {
 		if p, ok := e.fx.locals[name]; ok {
 			if e.cur != nil {
+				if e.inPrev && p.Kind == PCell {
+					if _, carried := e.st.cells[p.Cell]; carried {
+						// a variable that lives across iterations: its value when this iteration started
+						return &SV{V: e.st.load(p), T: p.Elem, St: e.st}, nil
+					}
+				}
 				// inside old(): locals keep their current value, only the heap and the parameters are old
+				// (inside prev(): variables declared by this iteration have no earlier value)
 				return &SV{V: e.cur.load(p), T: p.Elem, St: e.st}, nil
 			}
 			return &SV{Place: p, T: p.Elem}, nil
@@ -852,7 +860,10 @@ func (e *SpecEnv) evalCall(x *SX) (*SV, error) {
 			}
 			pe := *e
 			pe.st = e.prev
-			pe.cur = nil
+			// like old(): program locals (the loop variables of this iteration) keep their current values, only
+			// the heap is the one at the start of the iteration
+			pe.cur = e.st
+			pe.inPrev = true
 			pe.prev = nil
 			v, err := pe.eval(args[0])
 			if err != nil {
